@@ -1725,6 +1725,13 @@ def sqrt(t):
 def sum(t, dim=None, keepdim=False, axis=None):  # noqa: A001
     if axis is not None:
         dim = axis
+    if t.dtype.cat == 0 and dim is None:
+        # number of true entries (symbolic entries are decided by the explorer, one fork per entry)
+        n_true = 0
+        for v in t.a.flat:
+            if _py_bool(v):
+                n_true += 1
+        return Tensor(_objarr(n_true), int64)
     if dim is None:
         a = _np.sum(t.a) if t.a.size else 0
         return _mk(_objarr(a), t.dtype if t.dtype.cat else int64, (t,))
@@ -1742,6 +1749,14 @@ def sum(t, dim=None, keepdim=False, axis=None):  # noqa: A001
     if not _isinstance(a, _np.ndarray):
         a = _objarr(a)
     return _mk(a, t.dtype if t.dtype.cat else int64, (t,))
+
+
+def cumsum(t, dim, dtype=None):
+    dim = int(dim)
+    if t.a.ndim == 0:
+        return _mk(t.a.copy(), t.dtype if t.dtype.cat >= 1 else int64, (t,))
+    a = _np.cumsum(t.a, axis=dim) if t.a.size else t.a.copy()
+    return _mk(a if _isinstance(a, _np.ndarray) else _objarr(a), t.dtype if t.dtype.cat >= 1 else int64, (t,))
 
 
 def prod(t, dim=None, dtype=None):
